@@ -18,10 +18,16 @@ def nontrivial(line):
     # distinct (alphabet, text) that contains a byte outside the alphabet or whose
     # length is not a multiple of 32 (scalar tail present)
     f = _fields(line)
-    if f.get("kind") != "str":
+    if f.get("kind") not in ("str", "win"):
         return None
     s = _bytes(f)
     al = _ALPH.get(f.get("abc", "dna"), b"")
+    if f.get("kind") == "win":
+        # sub-slice cases: at least one misaligned offset pair and a text with more than one
+        # 16-byte vector or a foreign byte
+        if (f.get("so"), f.get("do")) != ("0", "0") and (len(s) > 16 or any(b not in al for b in s)):
+            return (f.get("abc"), f.get("hex"), f.get("so"), f.get("do"), f.get("dl"))
+        return None
     if len(s) % 32 != 0 or any(b not in al for b in s):
         return (f.get("abc"), f.get("hex"))
     return None
@@ -29,12 +35,20 @@ def nontrivial(line):
 
 def histogram(line):
     f = _fields(line)
-    if f.get("kind") != "str":
+    if f.get("kind") not in ("str", "win"):
         return ["kind=tab", "abc=" + f.get("abc", "?")]
     s = _bytes(f)
     al = _ALPH.get(f.get("abc", "dna"), b"")
     bad = [i for i, b in enumerate(s) if b not in al]
     keys = ["abc=" + f.get("abc", "?"), "nbad=%d" % min(len(bad), 3)]
+    if f.get("kind") == "win":
+        keys.append("kind=win")
+        keys.append("win-grid:so=%s,do=%s" % ("0:31" if f.get("so") == "0:31" else "0:15" if f.get("so") == "0:15" else "one",
+                                              "0:31" if f.get("do") == "0:31" else "0:15" if f.get("do") == "0:15" else "one"))
+        if bad:
+            p = bad[0]
+            keys.append("win-first-bad:" + ("prologue(<16)" if p < 16 else "16..31" if p < 32 else
+                                            "last16" if p >= len(s) - 16 else "middle"))
     n = len(s)
     keys.append("len=0" if n == 0 else "len<16" if n < 16 else "len<32" if n < 32 else "len<=130" if n <= 130
                 else "len<=600" if n <= 600 else "len>600")
@@ -66,7 +80,7 @@ SPEC = dict(
     module="LMEncode.C05",
     harness_bin="encode",
     ml_modules=["encode_model"],
-    n={"quick": 4000, "thorough": 120000},
+    n={"quick": 4800, "thorough": 120000},
     search_n={"quick": 20000, "thorough": 120000},
     translate=encode_abc.translate,
     nontrivial=nontrivial,
@@ -79,12 +93,21 @@ SPEC = dict(
          "lengths (20%), 131..600 (9%), 1000..3000 (1%), 0/1/2 invalid bytes (lower case, letter+-1, letter|0x80, "
          "control/punctuation, other upper case, multi-byte UTF-8 characters, uniform) at class or uniform positions; "
          "3% of the cases give encode_into a destination one longer/shorter; (c) one table case per alphabet "
-         "(from_ascii over 256 bytes, as_ascii/as_char/as_index over symbols(), as_str, K, from_char over 392 chars). "
+         "(from_ascii over 256 bytes, as_ascii/as_char/as_index over symbols(), as_str, K, from_char over 392 chars); "
+         "(d) sub-slice cases (kind=win, one sixth of the run): texts of the lengths {0,1,2,15..18,30..34,46..50,63..66,"
+         "79..81,95..97,111..113,127..130} (80%) or 0..199, 0/1/2 foreign bytes at position classes {0, 1..14, 15, 16..31, "
+         "31, 32..47, last 16, the 16 before, SSE2 tail, last, uniform}, 4% destination one longer/shorter; every pipeline's "
+         "encode_into(&text[B+so..][..len], &mut mem[B'+do..][..len+dl]) for every pair (so,do) of a grid (0..31 x 0..31: "
+         "30%, one so x 0..31: 30%, 0..31 x one do: 20%, 0..15 x 0..15: 20%) of misalignments from 32-byte aligned bases, "
+         "source surrounded by foreign bytes, destination by guard symbols, and encode_raw(&text[B+so..][..len]); per "
+         "pipeline the set of distinct (outcome, first modified guard element) over the grid is observed: each must pass "
+         "check_C05 (PROPFAIL), equal the extracted model run at the witness offsets and leave all guards intact (DIFF). "
          "Each text goes through generic/sse2/avx2/dispatch[forced Generic,Sse2,Avx2] x encode/encode_raw/encode_into, "
          "EncodedSequence::encode and from_str with each forced arm and the native one, and to_string(); every outcome "
          "Ok(indices)|Err(code point)|panic is checked by the extracted check_C05 (= extracted encode_spec; PROPFAIL) and "
          "compared with the extracted kernel model of that pipeline (DIFF). Non-trivial: distinct (alphabet, text) "
-         "containing a byte outside the alphabet or of a length that is not a multiple of 32.",
+         "containing a byte outside the alphabet or of a length that is not a multiple of 32; sub-slice cases with a "
+         "misaligned offset pair and a text longer than 16 or with a foreign byte.",
     trusted_base=[
         "Coq 8.16.1 kernel (coqc); vm_compute for the finite sweeps abc_ok dna / abc_ok protein (256 bytes x tables, "
         "256 lane values x 2 kernels) and the Example lemmas; no native_compute",
